@@ -210,6 +210,11 @@ def check_amorph(prop: str, res: Result, repo: Repo):
         return
     calls = [n for n in ast.walk(m.node) if isinstance(n, ast.Call) and "_analysis_method" in ast.unparse(n.func)]
     if not calls:
+        # a callable captured on the object (functools.partial, closure, cached bound arguments) freezes the candle list of the first call
+        captured = [st for st in ast.walk(m.node) if isinstance(st, (ast.Assign, ast.AnnAssign)) and any(isinstance(t, ast.Attribute) and isinstance(t.value, ast.Name) and t.value.id == "self" for t in (st.targets if isinstance(st, ast.Assign) else [st.target])) and st.value is not None and "self.candles" in ast.unparse(st.value)]
+        if captured:
+            res.fail("R-CAUSAL", finding(prop, "R-CAUSAL", m, captured[0], "Amorph stores a callable/arguments built from self.candles on the object: later calls evaluate a stale candle list instead of the current one"))
+            return
         res.errors.append("Amorph._calculate_reading no longer calls self._analysis_method")
         return
     params = [a.arg for a in m.node.args.args]
